@@ -98,6 +98,14 @@ var staticTypes = map[string]reflect.Type{
 	"N6": reflect.TypeOf(NotRelPromoted{}),
 	"N7": reflect.TypeOf(NotRelAfterEmpty{}),
 	"N8": reflect.TypeOf(NotRelInnerFirst{}),
+	// resource types that are not structs: pointers to types that are resource types themselves, and other kinds
+	"Q0": reflect.TypeOf((*G0)(nil)),
+	"Q1": reflect.TypeOf((*G1)(nil)),
+	"Q2": reflect.TypeOf((**G0)(nil)),
+	"Q3": reflect.TypeOf(int(0)),
+	"Q4": reflect.TypeOf([]G0(nil)),
+	"Q5": reflect.TypeOf(map[string]int(nil)),
+	"Q6": reflect.TypeOf((*fmt.Stringer)(nil)).Elem(),
 }
 
 var fillerElems = []reflect.Type{
